@@ -32,6 +32,8 @@ Trusted: nothing beyond the definitions in `Spec/Naive.lean`, `Spec/WellFormed.l
 import Kodama.Lemmas.SpecUnique
 import Kodama.Lemmas.SpecWellFormed
 import Kodama.Lemmas.SpecDecide
+import Kodama.Lemmas.FieldInstances
+import Kodama.Props.C03
 namespace Kodama
 open Spec
 variable {α : Type} [Num α]
@@ -88,5 +90,100 @@ example : GreedyValid .single 3 (#[1, 1, 3] : Array Nat) [⟨0, 1, 1, 2⟩, ⟨2
 example : WellFormed 4 exSingle := C06_wellFormed .single 4 exData exSingle (by decide)
 
 end NonVacuity
+
+/-! ## EXACT ARITHMETIC: `primitive_with` agrees with every greedy-valid reference on tie-free
+## input (appended section)
+
+Scope.  Exact arithmetic ONLY: `K` a linearly ordered field whose `Num K` instance computes the field
+operations and has no NaN (`ExactLaws K`, `Lemmas/FieldInstances.lean`: `fieldNum K`,
+`fieldNumWith K sq`).  IEEE floats are not a field; the float gap is measured by the oracles.
+
+Entry point: `primitive_with` (model `primitiveWith`), both build modes, every prior state, every
+valid matrix `2 ≤ n < 2^31`, `2·len = n(n-1)`, all seven methods.
+
+* `C06_primitive`         hypotheses: `steps₀` is ANY `GreedyValid m n data` step list (e.g. the
+      output of an independently written naive clustering) and its run meets no tie
+      (`TieFreeFrom m (init m n data) steps₀`).  Conclusion: `primitiveWith` returns normally and
+      its steps ARE `steps₀` (labels, sizes and heights).  `C03_primitive_exact` + `C06_unique`.
+* `C06_primitive_unique`  the tie-freeness hypothesis placed on the run of `primitiveWith`'s own
+      output instead: then every greedy-valid list equals that output.
+* `C06_primitive_modes`   consequently, on tie-free input, the returned steps do not depend on the
+      build mode or on the prior state/dendrogram (both calls return `steps₀`).
+* `C06_primitive_mst_statement`  NOT proved (a definition, nothing asserted): on tie-free input
+      `mstWith` and `primitiveWith .single` return the same steps.  Blocked by: no theorem says the
+      output of `mstWith` is `GreedyValid .single` (`C04_mst` proves the threshold characterisation
+      directly, not through `GreedyValid`).  What composes instead is
+      `C04_primitive_mst_same_cuts` (`Props/C04.lean`): the two outputs induce the same partition
+      at every level.
+-/
+
+section primitive
+variable {K : Type} [Field K] [LinearOrder K] [IsStrictOrderedRing K] [Num K]
+
+/-- **C06 for `primitive_with`, exact arithmetic.**  On tie-free input the returned steps are the
+steps of any greedy-valid dendrogram of the same matrix. -/
+theorem C06_primitive (E : ExactLaws K) (chk : Bool) (m : Method) (st : State K)
+    (d : Dendrogram K) (data : Array K) (n : Nat) (h2 : 2 ≤ n) (hs : n < 2147483648)
+    (hl : 2 * data.size = n * (n - 1)) (steps₀ : List (Step K))
+    (h₀ : GreedyValid m n data steps₀) (htf : TieFreeFrom m (init m n data) steps₀) :
+    ∃ st' d' M', primitiveWith chk m st d data n = .ok (st', d', M') ∧
+      d'.steps.toList = steps₀ := by
+  obtain ⟨st', d', M', hrun, hg⟩ := C03_primitive_exact E chk m st d data n h2 hs hl
+  exact ⟨st', d', M', hrun, (C06_unique m n data steps₀ _ h₀ hg htf).symm⟩
+
+/-- The same with the tie-freeness hypothesis on the run of the returned steps. -/
+theorem C06_primitive_unique (E : ExactLaws K) (chk : Bool) (m : Method) (st : State K)
+    (d : Dendrogram K) (data : Array K) (n : Nat) (h2 : 2 ≤ n) (hs : n < 2147483648)
+    (hl : 2 * data.size = n * (n - 1)) :
+    ∃ st' d' M', primitiveWith chk m st d data n = .ok (st', d', M') ∧
+      GreedyValid m n data d'.steps.toList ∧
+      (TieFreeFrom m (init m n data) d'.steps.toList →
+        ∀ steps₂ : List (Step K), GreedyValid m n data steps₂ → steps₂ = d'.steps.toList) := by
+  obtain ⟨st', d', M', hrun, hg⟩ := C03_primitive_exact E chk m st d data n h2 hs hl
+  exact ⟨st', d', M', hrun, hg, fun htf steps₂ h₂ => (C06_unique m n data _ steps₂ hg h₂ htf).symm⟩
+
+/-- On tie-free input the returned steps depend neither on the build mode nor on the prior state. -/
+theorem C06_primitive_modes (E : ExactLaws K) (chk₁ chk₂ : Bool) (m : Method) (st₁ st₂ : State K)
+    (d₁ d₂ : Dendrogram K) (data : Array K) (n : Nat) (h2 : 2 ≤ n) (hs : n < 2147483648)
+    (hl : 2 * data.size = n * (n - 1)) (steps₀ : List (Step K))
+    (h₀ : GreedyValid m n data steps₀) (htf : TieFreeFrom m (init m n data) steps₀) :
+    ∃ r₁ r₂, primitiveWith chk₁ m st₁ d₁ data n = .ok r₁ ∧
+      primitiveWith chk₂ m st₂ d₂ data n = .ok r₂ ∧
+      r₁.2.1.steps.toList = r₂.2.1.steps.toList := by
+  obtain ⟨s1, e1, M1, hr1, he1⟩ := C06_primitive E chk₁ m st₁ d₁ data n h2 hs hl steps₀ h₀ htf
+  obtain ⟨s2, e2, M2, hr2, he2⟩ := C06_primitive E chk₂ m st₂ d₂ data n h2 hs hl steps₀ h₀ htf
+  exact ⟨_, _, hr1, hr2, he1.trans he2.symm⟩
+
+end primitive
+
+/-- NOT proved (nothing asserted): on tie-free input over an exact number type `mst_with` and
+`primitive_with` with `Method::Single` return the same steps.  Missing ingredient: a theorem
+"`mstWith`'s output is `GreedyValid .single n data`" (then `C06_unique` closes it). -/
+def C06_primitive_mst_statement (K : Type) [Field K] [LinearOrder K] [Num K] : Prop :=
+  ExactLaws K → ∀ (chk : Bool) (st : State K) (d : Dendrogram K) (data : Array K) (n : Nat),
+    2 ≤ n → n < 2147483648 → 2 * data.size = n * (n - 1) →
+    ∀ steps₀ : List (Step K), GreedyValid .single n data steps₀ →
+      TieFreeFrom .single (init .single n data) steps₀ →
+      ∀ st' d' M', mstWith chk st d data n = .ok (st', d', M') → d'.steps.toList = steps₀
+
+/-! ### Non-vacuity over `ℚ` -/
+
+section primitiveExample
+@[reducible] private def qNum : Num ℚ := fieldNum ℚ
+attribute [local instance] qNum
+
+/-- `d01 = 5, d02 = 2, d12 = 9`. -/
+private def exQ : Array ℚ := #[5, 2, 9]
+private def exQSteps : List (Step ℚ) := [⟨0, 2, 2, 2⟩, ⟨1, 3, 5, 3⟩]
+
+/-- All hypotheses of `C06_primitive` hold of a concrete rational instance (single linkage), so the
+model returns exactly the hand-written reference run. -/
+example : ∃ st' d' M',
+    primitiveWith true .single State.new (Dendrogram.new 0) exQ 3 = .ok (st', d', M') ∧
+    d'.steps.toList = exQSteps :=
+  C06_primitive (exactLaws_fieldNum ℚ) true .single _ _ exQ 3 (by decide) (by decide) (by decide)
+    exQSteps (by decide) (by decide)
+
+end primitiveExample
 
 end Kodama
